@@ -586,6 +586,7 @@ func checkC01(c *Ctx) {
 
 	// ---- post-check shared with C06
 	checkC06Clamps(c)
+	checkC01Nonneg(c)
 }
 
 // ---------------- recursion ----------------
